@@ -139,7 +139,8 @@ class Labels:
 
 
 def dow_of(data):
-    """does the file have lines that end up in `delete_on_write` behind UNIT (a second FVAR line)?"""
+    """does the file have a second FVAR line? (only the legacy model, `fix.dow = false`, looks at this: before the C04
+    repair such lines were recorded by index in `delete_on_write`)"""
     return sum(1 for ln in data.decode('latin1').splitlines() if ln[:4].upper() == 'FVAR') > 1
 
 
@@ -288,7 +289,7 @@ def judge(ctx, case, init, steps, ans):
         oc = outcome_class(call, spec)
         where = f'{oc}|lst={call["lst"]}|backup={"on" if call["backup"] else "off"}|acta={acta}'
         hyp = mod['hyp']
-        inside = hyp['insync'] and hyp['plausible'] and hyp['calm']
+        inside = hyp['plausible']
         if inside and not mod['meets_spec']:
             raise RuntimeError(f'C19: model differs from spec inside the hypotheses of history_meets_spec: {sub}')
         mst = mod['st']
@@ -302,12 +303,8 @@ def judge(ctx, case, init, steps, ans):
                   if rec['ran'] and k > 0 else None)
 
         # ---- property: the specification's clauses on the observed states -------------------------------------
-        model_garbled = isinstance(mst['fs']['ins'], dict) and 'garbled' in mst['fs']['ins']
         if not spec['ins'] or (rec['ran'] and rec['ins_at_run'] != obs['fs']['ins']):
-            if model_garbled and pre['mem']['doc']['acta'] is not None:
-                sig = 'C19|ins|acta=present|delete_on_write-behind-acta'
-            else:
-                sig = f'C19|ins|{where}'
+            sig = f'C19|ins|{where}|fvar-lines={2 if f["nfv"] > 7 else 1}'
             got = obs['fs']['ins'] and obs['fs']['ins']['written']
             ctx.fail(sig, f'the .ins handed to SHELXL is not the current model without ACTA and with cycles '
                           f'{spec["want_ins"]["cycles"]}: parsed back it is {got}, expected {spec["want_ins"]} '
@@ -347,10 +344,7 @@ def judge(ctx, case, init, steps, ans):
         if mi is None or oi is None:
             if mi != oi:
                 diffs.append(('ins', mi, oi))
-        elif 'written' in mi:
-            if mi['written'] != oi['written']:
-                diffs.append(('ins', mi, oi))
-        elif mi['garbled'] == oi['written']:
+        elif mi.get('written') != oi['written']:
             diffs.append(('ins', mi, oi))
         if (mod['exc'] is not None) != (rec['raised'] is not None):
             diffs.append(('raised', mod['exc'], rec['raised']))
@@ -386,7 +380,7 @@ def singles():
         out.append(dict(file=mk_file(acta), stale_bak=stale, hkl=True,
                         calls=[dict(exit=ex, res=res, lst='good', backup=backup, cycles=3)]))
     for (ex, res), backup, acta in itertools.product(EXITRES, [True, False], ['none', 'later']):
-        out.append(dict(file=mk_file(acta, nfv=9), stale_bak=False, hkl=True,      # second FVAR line: delete_on_write
+        out.append(dict(file=mk_file(acta, nfv=9), stale_bak=False, hkl=True,      # a second FVAR line (absorbed by the parser)
                         calls=[dict(exit=ex, res=res, lst='good', backup=backup, cycles=3)]))
     for backup, acta in itertools.product([True, False], ['none', 'later']):
         out.append(dict(file=mk_file(acta), stale_bak=False, hkl=False,           # no reflections: SHELXL is not started
